@@ -813,6 +813,7 @@ func brScenarios(tier string) []engine.Scenario {
 	pairs := [][2]int{{4, 4}, {4, 5}, {4, 6}, {5, 5}, {5, 7}}
 	variants := append(append([]brVariant{}, brVariants...), brDeepVariants...)
 	nBase := len(brVariants)
+	variants = append(variants, brMultiLevelVariants...) // after the boundary nBase+len(brDeepVariants): unequal pairs only in quick
 	// the four paths with the NTT flags of both parameter sets flipped, and a digit-decomposed single-P key
 	for _, v := range brVariants {
 		w := v
@@ -874,6 +875,7 @@ func brScenarios(tier string) []engine.Scenario {
 		}
 	}
 	scs = append(scs, brSizeScenarios(tier)...)
+	scs = append(scs, brHistoryScenarios(tier)...)
 	return scs
 }
 
